@@ -68,6 +68,16 @@ CLAIMED["C20"] = dict(
          "nowhere else) changes the value. Two genuine defects were repaired (fix: commits), one is recorded as known finding.",
     note=TB + "Input expressions are sampled. Known finding: evaluate_deltas=True applied to a generated delta whose summed index occurs on no other object.")
 
+CLAIMED["C10"] = dict(
+    category="translation_validation", design="DESIGN.md §4 C10",
+    technique="Lean 4 theorems (symmetry_report_sound, exploit_sound, partition_lossless over the proved model of Container.permute and the proved checker) + per-run validation of every reported symmetry / decomposition",
+    text="Every (permutation, factor) reported by Term.symmetry / Obj.symmetry and every key of exploit_perm_sym explored is validated: "
+         "the permuted term is built by the Lean model of Container.permute (permute_compose: = transpositions one after another) and "
+         "compared with factor x term by the proved checker; symmetry_report_sound turns an accepted check into 'value at the permuted "
+         "assignment = factor x value' for all models; exploit_sound / partition_lossless turn accepted re-expansions / part sums into "
+         "losslessness for all models. Keys of the sort/filter functions are recomputed per term by an independent oracle. Inputs are sampled.",
+    note=TB + "Sort keys are checked against a python oracle, not a Lean theorem.")
+
 PENDING = {
 }
 
